@@ -24,3 +24,13 @@ REGISTRY['C10'] = {
     'trusted_base': COMMON_TB + ['pybind11 stand-in /verif/native/shim and ctypes front /verif/native/pyshim (B3)'],
     'assumptions': ['size_t arithmetic does not overflow (2*max_length)', 'the Python bytearray handed to next_cut is not mutated concurrently'],
 }
+
+
+# per-property fragments harness/reg_cXX.py (ENTRY = {...}) override / extend the table above
+import importlib as _il, pkgutil as _pk, harness as _h
+for _m in sorted(_pk.iter_modules(_h.__path__), key=lambda m: m.name):
+    if _m.name.startswith('reg_c'):
+        _mod = _il.import_module('harness.' + _m.name)
+        REGISTRY[_m.name[4:].upper()] = _mod.ENTRY
+        if hasattr(_mod, 'NOT_APPLICABLE'):
+            NOT_APPLICABLE.update(_mod.NOT_APPLICABLE)
